@@ -179,6 +179,7 @@ let ops_for (f : fx) ~(m : string) ~(cli : bool) ~(cli_reps : int) =
   let d1 = List.nth f.dbs (min 1 (List.length f.dbs - 1)) in
   let rep = emit_repeat f ~m in
   rep ~need:3 "dump_json" "-";
+  rep ~need:3 "dump_shared_options" "-";
   rep ~need:1 "dump_json" ~tag:"dump_json_filtered" (hx d1.name ^ "|" ^ hx "o");
   rep ~need:3 "sql" "-";
   rep ~need:3 "csv" "-";
